@@ -352,7 +352,7 @@ PROPS['C17'] = sem_prop('Function entry/exit probes fire once per call on every 
     'Lean 4 theorem lowerF_sim: entry probes, wrapper block, exit probes and the copies in front of return / unreachable reproduce the monitored activation exactly (fall-through, return, branch to the function label from any depth, unreachable), results unchanged; '
     'for all bodies without semantic-after on branches. Tied to the code by the sem family.',
     'Lean 4 proof (function-level simulation) + differential correspondence and execution in the Lean interpreter', with_lower=True)
-PROPS['C17']['families'].append({'name': 'edit', 'quick_n': 1000, 'thorough_n': 50000, 'keys': ['inv']})
+PROPS['C17']['families'].append({'name': 'edit', 'quick_n': 1500, 'thorough_n': 100000, 'keys': ['inv']})
 PROPS['C17']['rule'] += ' Also the edit family: function-exit code injected into functions among additions, deletions and conversions of functions and imports must reach the encoded function (F35).'
 PROPS['C18'] = sem_prop('Block entry probes fire on every entry into the block', ['Orca/Props/C18.lean'],
     'Lean 4 theorem: the lowered program reproduces the monitored trace, in which entry probes fire at every entry of a block / loop iteration / if arm and nowhere else; all programs without semantic-after on branches.',
